@@ -108,6 +108,7 @@ class _StdApi:
                     opc=opc,
                     first_line=first_line,
                     current_offset=current_offset,
+                    dup_lines=False,
                 )
 
         self.Bytecode = Bytecode
